@@ -6,7 +6,7 @@
      decode_file   mirrors deserializer/mod.rs `Deserializer::deserialize` + header.rs + chunk.rs
                    `Chunk::decode` + deserializer/state.rs (decode_*_chunk, find_canonical_property,
                     add_property, finish) + WeakDom::insert's UniqueId collision rule
-   The code is modelled AS PINNED.  Hash-container iteration orders are explicit parameters:
+   The code is modelled AS IT IS in the working tree.  Hash-container iteration orders are explicit parameters:
    [i_props] of every instance is listed in the iteration order of `Instance.properties`, and
    [ep_order] gives the iteration order of a `PropInfo.aliases` set from its insertion sequence.
    External functions are parameters: compression, inflation, blake3 (SharedString hash, as a table),
@@ -206,7 +206,9 @@ Definition cti_prop (d : db) (class : bytes) (acc : list bytes * type_info) (pv 
       | None => Panic                                              (* type_info.properties.get_mut(&canonical_name).unwrap() *)
       | Some pi =>
           let aliases := if bmem pname (pi_aliases pi) then pi_aliases pi else pi_aliases pi ++ [pname] in
-          let pi' := mkPI (pi_type pi) (pi_ser_name pi) aliases (pi_default pi) migration in   (* prop_info.migration = migration *)
+          (* if migration.is_some() { prop_info.migration = migration; } *)
+          let pi' := mkPI (pi_type pi) (pi_ser_name pi) aliases (pi_default pi)
+                          (match migration with Some _ => migration | None => pi_migration pi end) in
           Ok (ss, mkTI (ti_id ti) (ti_service ti) (ti_instances ti) (bset canonical pi' (ti_props ti))
                        (ti_class ti) (ti_visited ti))
       end
@@ -441,18 +443,39 @@ Definition decode_chunk (p : dec_params) : parser (bytes * bytes) :=
   compressed_len <== read_le 4 ;;
   len <== read_le 4 ;;
   reserved <== read_le 4 ;;
-  if negb (N.eqb reserved 0) then (fun _ => Panic) else             (* panic!("Chunk reserved space was not zero") *)
+  if negb (N.eqb reserved 0) then pfail E_CHUNK_RESERVED else         (* Err(InvalidData "Chunk reserved space was not zero") *)
   if N.eqb compressed_len 0 then
     _ <== palloc (dp_lim p) len ;;                                  (* Vec::with_capacity(header.len) *)
     data <== take_upto len ;;
-    if negb (N.eqb (N.of_nat (length data)) len) then (fun _ => Panic)     (* assert_eq!(data.len(), header.len) *)
+    if negb (N.eqb (N.of_nat (length data)) len) then pfail E_EOF    (* data.len() != header.len: Err(UnexpectedEof) *)
     else pret (name, data)
   else
     _ <== palloc (dp_lim p) compressed_len ;;
     compressed_data <== take_upto compressed_len ;;
+    (* compressed_data.starts_with(ZSTD_MAGIC_NUMBER) selects the decompressor: inside dp_inflate *)
+    _ <== palloc (dp_lim p) len ;;                                  (* the decompressor's output buffer *)
+    match dp_inflate p compressed_data len with
+    | None => pfail E_INFLATE
+    | Some data =>
+        if negb (N.eqb (N.of_nat (length data)) len) then pfail E_EOF
+        else pret (name, data)
+    end.
+
+(* Chunk::decode before repair 949437a7 (assert / slice index / panic!); kept for the refutation witnesses *)
+Definition decode_chunk_pinned (p : dec_params) : parser (bytes * bytes) :=
+  name <== read_exact 4 ;;
+  compressed_len <== read_le 4 ;;
+  len <== read_le 4 ;;
+  reserved <== read_le 4 ;;
+  if negb (N.eqb reserved 0) then (fun _ => Panic) else             (* panic!("Chunk reserved space was not zero") *)
+  if N.eqb compressed_len 0 then
+    data <== take_upto len ;;
+    if negb (N.eqb (N.of_nat (length data)) len) then (fun _ => Panic)     (* assert_eq!(data.len(), header.len) *)
+    else pret (name, data)
+  else
+    compressed_data <== take_upto compressed_len ;;
     if Nat.ltb (length compressed_data) 4 then (fun _ => Panic)     (* &compressed_data[0..4] *)
     else
-      _ <== palloc (dp_lim p) len ;;                                (* the decompressor's output buffer *)
       match dp_inflate p compressed_data len with
       | None => pfail E_INFLATE
       | Some data =>
@@ -583,7 +606,7 @@ Fixpoint prnt_links (insts : list (Z * dinst)) (roots : list Z) (pairs : list (Z
   | (id, parent_ref) :: rest =>
       if Z.eqb parent_ref (-1) then prnt_links insts (roots ++ [id]) rest
       else match zfind parent_ref insts with
-           | None => Panic                                          (* instances_by_ref.get_mut(&parent_ref).unwrap() *)
+           | None => Err E_UNKNOWN_REFERENT                          (* .ok_or(InnerError::UnknownReferent)? *)
            | Some i =>
                prnt_links (zupd parent_ref (mkDI (di_label i) (di_class i) (di_name i) (di_props i) (di_children i ++ [id])) insts)
                           roots rest
@@ -621,7 +644,7 @@ Fixpoint finish_loop (fuel : nat) (p : dec_params) (queue : list (Z * N)) (insts
       | [] => Ok out
       | (referent, parent) :: q =>
           match zfind referent insts with
-          | None => Panic                                           (* self.instances_by_ref.remove(&referent).unwrap() *)
+          | None => finish_loop f p q insts uids out                (* None => continue: undeclared or repeated subject *)
           | Some i =>
               let props := collect_props (di_props i) in
               let '(props, uids) :=
@@ -640,7 +663,7 @@ Fixpoint finish_loop (fuel : nat) (p : dec_params) (queue : list (Z * N)) (insts
   end.
 
 Definition finish (p : dec_params) (st : dstate) : res cdom :=
-  finish_loop (S (length (ds_insts st))) p (List.map (fun r => (r, 0)) (ds_roots st)) (ds_insts st) [] [].
+  finish_loop (S (length (ds_roots st) + length (flat_map (fun zi => di_children (snd zi)) (ds_insts st)))) p (List.map (fun r => (r, 0)) (ds_roots st)) (ds_insts st) [] [].
 
 Definition dstate0 : dstate := mkDS [] [] [] [] 1.
 
